@@ -46,3 +46,121 @@ def fact_edge(lab, polarity, pred):
     satisfies pred(atom, func)."""
     return (isinstance(lab, tuple) and lab[0] == polarity and
             len(lab) == 4 and pred(lab[1], lab[2], lab[3]))
+
+
+# ----------------------------------------------------------------------
+# flag-sensitive reachability: locals that are only ever assigned the
+# constants True/False/None are tracked along the path, and branches on them
+# that contradict the tracked value are pruned.
+import ast as _ast
+
+
+def bool_flags(func):
+    """Local names of func assigned only constant True/False/None."""
+    vals = {}
+    for n in _ast.walk(func.node):
+        if isinstance(n, _ast.Assign):
+            for t in n.targets:
+                for nm in _ast.walk(t):
+                    if isinstance(nm, _ast.Name):
+                        ok = isinstance(t, _ast.Name) and isinstance(
+                            n.value, _ast.Constant) and (
+                                n.value.value in (True, False, None))
+                        vals.setdefault(nm.id, []).append(ok)
+        elif isinstance(n, (_ast.AugAssign, _ast.For, _ast.With,
+                            _ast.ExceptHandler, _ast.NamedExpr)):
+            for nm in _ast.walk(n.target if hasattr(n, 'target') else n):
+                if isinstance(nm, _ast.Name) and isinstance(
+                        nm.ctx, _ast.Store):
+                    vals.setdefault(nm.id, []).append(False)
+    params = set(func.all_param_names())
+    return {k for k, v in vals.items() if all(v) and k not in params}
+
+
+def reach_flags(sg, starts, avoid=None, edge_ok=None, init=None):
+    """Like Super.reach but the search state is (node, flag valuation of the
+    root frame).  Returns dict state -> predecessor state; use
+    ``flag_hits`` to test nodes."""
+    root = sg.root
+    flags = bool_flags(root)
+    seen = {}
+    todo = []
+    st0 = tuple(sorted((init or {}).items()))
+    for s in starts:
+        if avoid is not None and avoid(sg.nodes[s]):
+            continue
+        seen[(s, st0)] = None
+        todo.append((s, st0))
+    while todo:
+        n, st = todo.pop()
+        sn = sg.nodes[n]
+        val = dict(st)
+        # assignment completes at the 'out' node of the statement
+        if (sn.kind == 'out' and sn.frame.parent is None and
+                sn.cn.kind == 'stmt' and isinstance(sn.cn.ast, _ast.Assign)):
+            a = sn.cn.ast
+            for t in a.targets:
+                if isinstance(t, _ast.Name) and t.id in flags:
+                    val[t.id] = bool(a.value.value)
+        nst = tuple(sorted(val.items()))
+        for d, lab in sn.succ:
+            if (isinstance(lab, tuple) and len(lab) == 4 and
+                    lab[0] in ('T', 'F') and lab[2] is root and
+                    isinstance(lab[1], _ast.Name) and lab[1].id in val):
+                if val[lab[1].id] != (lab[0] == 'T'):
+                    continue
+            if edge_ok is not None and not edge_ok(sn, sg.nodes[d], lab):
+                continue
+            if avoid is not None and avoid(sg.nodes[d]):
+                continue
+            key = (d, nst)
+            if key in seen:
+                continue
+            seen[key] = (n, st)
+            todo.append(key)
+    return seen
+
+
+def flag_witness(sg, seen, target_pred):
+    for (n, st) in sorted(seen, key=lambda k: k[0]):
+        if target_pred(sg.nodes[n]):
+            path = []
+            k = (n, st)
+            while k is not None:
+                path.append(k[0])
+                k = seen[k]
+            path.reverse()
+            return path
+    return None
+
+
+def enumerate_paths(sg, start, end_pred, avoid=None, max_paths=4000,
+                    max_visits=1):
+    """All paths (each node at most max_visits times) from start to a node
+    satisfying end_pred; yields (node id list, fact list) where facts are
+    the (polarity, atom, func, cn) labels passed."""
+    from .model import AnalysisError
+    out = []
+    stack = [(start, [start], [], {start: 1})]
+    while stack:
+        n, path, facts, visits = stack.pop()
+        sn = sg.nodes[n]
+        if end_pred(sn) and len(path) > 1:
+            out.append((path, facts))
+            if len(out) > max_paths:
+                raise AnalysisError('path budget exceeded in %s' %
+                                    sg.root.qualname)
+            continue
+        for d, lab in sn.succ:
+            if visits.get(d, 0) >= max_visits and not end_pred(sg.nodes[d]):
+                continue
+            if avoid is not None and avoid(sg.nodes[d]):
+                continue
+            v2 = dict(visits)
+            v2[d] = v2.get(d, 0) + 1
+            f2 = facts
+            if isinstance(lab, tuple) and len(lab) == 4 and \
+                    lab[0] in ('T', 'F'):
+                f2 = facts + [lab]
+            stack.append((d, path + [d], f2, v2))
+    return out
